@@ -93,6 +93,12 @@ def build(plan):
             return lambda i=i: types[i]
         if n["out"] == "lobj":
             return ListType(lambda i=i: types[i])
+        if n["out"] == "lfail":
+            # [TLn] with one field z whose resolver must never run (the list is never produced)
+            def zres(root, ctx, info, _i=i):
+                plan.setdefault("_z_invoked", []).append(_i)
+                return 1
+            return ListType(ObjectType("TL%d" % i, [Field("z", Int, resolver=zres)]))
         if n["out"] == "nullnn":
             return NonNullType(Int)
         if n["out"] == "sernull":
@@ -131,7 +137,7 @@ def build(plan):
     def one(i):
         # gamma dirs: every field carries a directive that changes nothing (@include(if: true) / @skip(if: false))
         d = ("", " @include(if: true)", " @skip(if: false)")[(i % 2) + 1 if v.get("dirs") else 0]
-        return "f%d%s%s%s" % (i, "(x: $nv)" if nodes[i - 1]["out"] == "argerr" else "", d, (" { %s }" % sel(i)) if nodes[i - 1]["out"] in COMPOSITE else "")
+        return "f%d%s%s%s" % (i, "(x: $nv)" if nodes[i - 1]["out"] == "argerr" else "", d, (" { %s }" % sel(i)) if nodes[i - 1]["out"] in COMPOSITE else " { z }" if nodes[i - 1]["out"] == "lfail" else "")
 
     def sel(p):
         parts = [one(i) for i in kids.get(p, [])]
@@ -192,6 +198,12 @@ def behave(plan, n):
         return None
     if out in ("sernull", "sernullnn"):
         return "NULLME"
+    if out == "lfail":
+        def produce():
+            yield {"z": 1}
+            yield {"z": 2}
+            raise ResolverError("resolver error at %d" % n, extensions={"node": n})
+        return produce()
     if out == "lval":
         return [n, None, n]
     if out == "lnn":
@@ -243,6 +255,7 @@ def set_resolvers(schema, plan, kids, make):
     have NO explicit resolver and are served by methods of the root object through the default resolver."""
     style = (plan.get("variant") or {}).get("style", "resolver")
     plan.pop("_shared_err", None)     # one shared error object per run
+    plan.pop("_z_invoked", None)
     root = None
     if style == "method":
         class RootObj:
@@ -649,7 +662,10 @@ def run_custom(plan, beh, rec):
         fut = Deferred()
         fut.set_exception(e)
     except Exception as e:
-        return [("custom-runtime/raises/%s" % type(e).__name__, repr(e))], None
+        if not is_crash(e):
+            return [("custom-runtime/raises/%s" % type(e).__name__, repr(e))], None
+        fut = Deferred()
+        fut.set_exception(e)
     if not isinstance(fut, Deferred):
         return [("custom-runtime/result-not-wrapped", repr(type(fut)))], None
     return _follow(plan, beh, fut, rt.pending, rt.complete, lambda: None, "custom-runtime", lambda: submitted), fut
@@ -698,7 +714,10 @@ def run_pool(plan, beh, rec):
         fut = Future()
         fut.set_exception(e)
     except Exception as e:
-        return [("pool/raises/%s" % type(e).__name__, repr(e))], None
+        if not is_crash(e):
+            return [("pool/raises/%s" % type(e).__name__, repr(e))], None
+        fut = Future()
+        fut.set_exception(e)
     if not isinstance(fut, Future):
         return [("pool/result-not-a-future", repr(type(fut)))], None
     div += _follow(plan, beh, fut, pool.pending, pool.complete, lambda: None, "pool", lambda: pool.submitted)
@@ -746,7 +765,14 @@ def _follow(plan, beh, fut, pending, complete, settle, tag, started):
         div.append(("%s/data" % tag, {"expected": xd, "got": data}))
     if errs != xe:
         div.append(("%s/errors" % tag, {"expected": xe, "got": errs}))
-    return div
+    return div + z_check(plan, tag)
+
+
+def z_check(plan, tag):
+    """No object of a list whose production failed is ever completed (lfail)."""
+    if plan.get("_z_invoked"):
+        return [("%s/item-of-a-list-that-could-not-be-produced-was-completed/%s" % (tag, plan["op"]), {"fields": sorted(set(plan["_z_invoked"]))})]
+    return []
 
 
 class _TaskFuture:
@@ -855,6 +881,8 @@ def run_blocking(plan, beh, rec, executor):
     except CRASHES:
         return ([] if crashes else [("%s/spurious-crash" % tag, "")]), invoked
     except Exception as e:
+        if crashes and is_crash(e):      # (a StopIteration that left a generator / coroutine: RuntimeError with the crash as its cause)
+            return [], invoked
         return [("%s/raises/%s" % (tag, type(e).__name__), repr(e))], invoked
     if crashes:
         return [("%s/crash-lost" % tag, "")], invoked
@@ -865,7 +893,7 @@ def run_blocking(plan, beh, rec, executor):
         div.append(("%s/data" % tag, {"expected": xd, "got": data}))
     if errs != xe:
         div.append(("%s/errors" % tag, {"expected": xe, "got": errs}))
-    return div, invoked
+    return div + z_check(plan, tag), invoked
 
 
 def _reachable_crash(plan):
@@ -963,4 +991,4 @@ def run_real(plan, beh, rng, which):
         div.append(("%s/data" % tag, {"expected": xd, "got": data}))
     if errs != xe:
         div.append(("%s/errors" % tag, {"expected": xe, "got": errs}))
-    return div
+    return div + z_check(plan, tag)
